@@ -113,10 +113,22 @@ def gen_cases(rng, tier):
         for c in _single_ops(a, rng, True) + _pair_ops(a, b):
             c["tag"] = "random"
             cases.append(c)
+    for c in cases:
+        if rng.random() < (0.4 if c.get("tag", "").startswith("random") else 0.1):
+            c["in"]["sub"] = rng.randint(1, 10 ** 6)
+            c["tag"] = c.get("tag", "") + "-subidx"
     return cases
 
 
 def run_impl(case):
+    T.SUB = case["in"].get("sub")  # tables built as filtered subsets of larger ones (index labels != positions)
+    try:
+        return _run(case)
+    finally:
+        T.SUB = None
+
+
+def _run(case):
     op, i = case["op"], case["in"]
     if op == "merge":
         return T.rows_of(T.ga(i["t"]).merge(bp=i["bp"]))
